@@ -325,7 +325,12 @@ func (*Ufs) Walk(req *SrvReq) {
 		path = p
 	}
 
-	nfid.path = path
+	// only a complete walk moves the fid; after a partial one newfid is
+	// not kept, and when walking in place it is the fid being walked from
+	if i == len(tc.Wname) {
+		nfid.path = path
+	}
+
 	req.RespondRwalk(wqids[0:i])
 }
 
